@@ -352,7 +352,10 @@ fn check(prop: &str, tier_arg: &str) -> i32 {
     if !total.notes.is_empty() {
         println!("notes (oracles of other properties that fired in shared scenarios): {:?}", total.notes);
     }
-    if !harness_errors.is_empty() {
+    // A violation whose replay file reproduced in a fresh process stands on its own, even if the
+    // code under test also made some runs nondeterministic (e.g. by iterating a randomised hash set):
+    // report it; harness problems are then printed as warnings.
+    if !harness_errors.is_empty() && confirmed.is_empty() {
         for e in &harness_errors {
             eprintln!("HARNESS: {e}");
         }
@@ -363,6 +366,9 @@ fn check(prop: &str, tier_arg: &str) -> i32 {
         return 2;
     }
     if !confirmed.is_empty() {
+        for e in &harness_errors {
+            eprintln!("HARNESS (warning, a confirmed violation is reported below): {e}");
+        }
         for v in &confirmed {
             println!("violation: [{}] seed={} shrunk {}->{} ops: {}", v.oracle, v.seed, v.shrunk_from, v.shrunk_to, v.msg);
             println!("VIOLATION property={} replay={}", v.property, v.replay);
